@@ -29,7 +29,7 @@ CHUNKINGS = {
     "dir_split": lambda da: da.chunk({"dir": 3}),
     "freq_dir_split": lambda da: da.chunk({"time": 2, "freq": 2, "dir": 4}),
 }
-OPS = [op for op in S.ALL_OPS if op not in ("interp_like",)]
+OPS = [op for op in S.ALL_OPS if op not in ("interp_like",)] + S.FIT_OPS
 
 
 def sched_cfg(tasks, shapes, w, gil, live=True):
@@ -57,30 +57,39 @@ def threaded_trace(ctx, workers):
                 a[k] += np.maximum(0, amp - 5 * (np.abs(ii - ci) + dj) ** 2)
         return xr.DataArray(a, coords={"time": np.arange(nt), "freq": np.linspace(0.04, 0.4, nf), "dir": np.arange(nd) * (360.0 / nd)},
                             dims=("time", "freq", "dir"), name="efth")
-    a, b = mk(40, 12, 8), mk(40, 9, 12)
-    ra, rb = a.spec.partition.ptm3(parts=3), b.spec.partition.ptm3(parts=3)
+    # the third computation has more than a thousand bins per spectrum and several spectra per block: long C calls, so that a
+    # routine that lets other threads run during the call (whatever its size threshold) is actually entered concurrently
+    a, b, c = mk(40, 12, 8), mk(40, 9, 12), mk(48, 32, 36)
+    ra, rb, rc_ = a.spec.partition.ptm3(parts=3), b.spec.partition.ptm3(parts=3), c.spec.partition.ptm3(parts=3)
     os.makedirs(os.path.join(BUILD, "traces"), exist_ok=True)
     fd, path = tempfile.mkstemp(prefix="h2-", suffix=".ndjson", dir=os.path.join(BUILD, "traces"))
     os.close(fd)
     os.environ["WAVESPECTRA_VERIF_TRACE"] = path
     try:
         la, lb = a.chunk({"time": 1}).spec.partition.ptm3(parts=3), b.chunk({"time": 1}).spec.partition.ptm3(parts=3)
-        ca, cb = dask.compute(la, lb, scheduler="threads", num_workers=workers)
+        lc = c.chunk({"time": 4}).spec.partition.ptm3(parts=3)
+        ca, cb, cc = dask.compute(la, lb, lc, scheduler="threads", num_workers=workers)
     finally:
         os.environ.pop("WAVESPECTRA_VERIF_TRACE", None)
-    ok = np.array_equal(ca.values, ra.values) and np.array_equal(cb.values, rb.values)
+    ok = np.array_equal(ca.values, ra.values) and np.array_equal(cb.values, rb.values) and np.array_equal(cc.values, rc_.values)
     events = []
     thr = {}
+    garbled = 0
     with open(path) as fh:
         for line in fh:
-            ev = json.loads(line)
+            try:
+                ev = json.loads(line)
+                ev["ev"]
+            except (ValueError, KeyError, TypeError):
+                garbled += 1       # an event line is written by several fprintf calls: only two threads inside the routine can interleave them
+                continue
             if "thr" in ev:
                 ev["thr"] = thr.setdefault(ev["thr"], len(thr) + 1)
             ev.pop("arr", None)
             if ev["ev"] in ("wenter", "wexit", "enter", "pinit"):
                 events.append(ev)
     os.unlink(path)
-    return ok, events, len(thr)
+    return ok, events, len(thr), garbled
 
 
 def run(ctx):
@@ -112,7 +121,11 @@ def run(ctx):
                           "the interpreter died during a threaded dask computation of PTM3 on %d workers (%s): calls into the C "
                           "routine are not serialised?" % (workers, val))
             continue
-        ok, events, nthreads = val
+        ok, events, nthreads, garbled = val
+        if garbled:
+            ctx.violation({"where": "trace", "clause": "AtMostOneInside", "workers": workers, "kind": "interleaved-event-writes"},
+                          "%d event lines written by the C routine are interleaved with another thread's: two threads were inside the "
+                          "non-reentrant routine at once on %d workers" % (garbled, workers))
         if not ok:
             ctx.violation({"where": "threaded", "workers": workers}, "threaded PTM3 on %d workers differs from the in-memory result" % workers)
         fd, path = tempfile.mkstemp(prefix="dst-", suffix=".ndjson", dir=os.path.join(BUILD, "traces"))
@@ -173,7 +186,9 @@ def run(ctx):
                                   {"chunks": str(cf(base).chunks)})
                     break
                 rel = 3e-6 if op in ("tp", "tp_raw", "fp", "dp", "dpm", "dpspr", "alpha", "gamma") else 1e-9
-                d = S.circular_same(got, mem[op], rel) if op in ("dm", "dp", "dpm") else S.same(got, mem[op], rel)
+                if op in ("fit_jonswap", "fit_gaussian"):
+                    rel = 1e-4
+                d = S.circular_same(got, mem[op], rel) if op in ("dm", "dp", "dpm") else S.same(got, mem[op], rel, abs_=1e-6 if rel == 1e-4 else 1e-9)
                 if d is None:
                     ctx.replayed()
                 else:
